@@ -76,7 +76,8 @@ Bases == { Base,
            [Base EXCEPT !.extnh = TRUE, !.mpr = "one", !.mpr4 = TRUE],                          \* RFC 8950
            [Base EXCEPT !.asn4 = FALSE, !.path = "P5", !.as4 = "Q1"],                            \* 2-byte peer with AS4_PATH
            [Base EXCEPT !.nlri = "none", !.mpr = "two", !.mprLL = TRUE, !.addpath = FALSE],      \* IPv6 only, two next hops
-           [Base EXCEPT !.nlri = "none", !.wd = "one", !.mpu = "one"] }                          \* withdraw-only
+           [Base EXCEPT !.nlri = "none", !.wd = "one", !.mpu = "one"],                           \* withdraw-only
+           [Base EXCEPT !.asn4 = FALSE, !.ibgp = TRUE, !.path = "P0", !.aggr = TRUE, !.pref = "hundred"] }   \* iBGP, 2-byte AGGREGATOR
 Fields == DOMAIN Base
 
 \* rows that are not well-formed UPDATEs for their session
